@@ -47,6 +47,7 @@ fn view03(out: &mut Vec<u64>, p: &Packet) {
 
 pub fn exec(input: &[u64]) -> Vec<u64> {
     if input[0] == 8 { let mut v = input.to_vec(); v[0] = 7; return suite06::exec(&v); }
+    if input[0] == 12 { let mut v = input.to_vec(); v[0] = 6; return suite06::exec(&v); }
     let mut c = Cur::new(&input[1..]);
     let mut out = Vec::new();
     match input[0] {
@@ -122,6 +123,31 @@ pub fn gen(tier: &str, r: &mut Rng, emit: &mut dyn FnMut(Vec<u64>)) {
         d.entries.push((6, (0..nv).map(|i| if i == 0 { b.clone() } else { vec![0] }).collect()));
         let mut v = vec![7]; d.write(&mut v); emit(v);
     }
+    // the Observe / Content-Format getters over raw states (kind 12): every 16-bit number in its shortest form (which
+    // of them have a name is the registry's business, not a list frozen here), every named number padded with leading
+    // zeros to 3..5 bytes and with one high byte set (values that are a named number only modulo 2^8k), repeated values
+    for n in 0..65536u64 {
+        let b: Vec<u8> = if n == 0 { vec![] } else if n < 256 { vec![n as u8] } else { vec![(n >> 8) as u8, n as u8] };
+        let mut d = PktDesc { vtt: 0x40, class: 0x45, ..Default::default() };
+        d.entries = vec![(12, vec![b.clone()]), (6, vec![b])];
+        let mut v = vec![12]; d.write(&mut v); emit(v);
+    }
+    let named: Vec<u64> = ALL_CF.iter().map(|c| usize::from(*c) as u64).collect();
+    for &n in named.iter().chain([0u64, 1, 2].iter()) { for l in 1..=5usize { for hi in [0u8, 1, 0x80, 0xFF] { for pos in 0..l {
+        let mut b = vec![0u8; l];
+        if l >= 2 { b[l - 2] = (n >> 8) as u8; } else if n > 255 { continue; }
+        b[l - 1] = n as u8;
+        if hi != 0 { if pos + 2 >= l && (pos + 1 == l || n > 255) { continue; } if pos + 1 >= l { continue; } if b[pos] != 0 { continue; } b[pos] = hi; } else if pos > 0 { continue; }
+        for rep in [false, true] {
+            let mut d = PktDesc { vtt: 0x40, class: 1, ..Default::default() };
+            let vals = if rep { vec![b.clone(), vec![50]] } else { vec![b.clone()] };
+            d.entries = vec![(6, vals.clone()), (12, vals)];
+            let mut v = vec![12]; d.write(&mut v); emit(v);
+            let mut d7 = PktDesc { vtt: 0x40, class: 1, ..Default::default() };
+            d7.entries = vec![(6, if rep { vec![b.clone(), vec![0]] } else { vec![b.clone()] })];
+            let mut v = vec![7]; d7.write(&mut v); emit(v);
+        }
+    } } } }
     // trait views and copies
     for _ in 0..(if thorough { 50_000 } else { 4_000 }) {
         let mut src = suite06::rand_pkt(r);
